@@ -41,8 +41,8 @@ NPRIV = len(PRIVACY)
 THEMES = ["classic", "base", "readthedocs"]
 
 
-def check_render(kw, pi, theme):
-    sources, exporter, newname = T.gen(**kw)
+def check_render(kw, pi, theme, samename=False):
+    sources, exporter, newname = T.gen(samename=samename, **kw)
     opts = copy.copy(PJ.OPTS)
     opts.privacy = list(PRIVACY[pi])
     s = PJ.build(sources, opts=opts)
@@ -74,14 +74,15 @@ def _parts():
     parts=_parts, timeout=(300, 3000), cls="E", tracing="concrete-after-choice", twin="first", unblock=UNBLOCK,
     code=["pydoctor.model.Documentable.url/page_object", "pydoctor.linker.taglink/_EpydocLinker", "pydoctor.templatewriter.writer.TemplateWriter.writeSummaryPages/writeIndividualFiles/_writeDocsFor",
           "pydoctor.templatewriter.pages.*", "summary.*", "pages.sidebar.*", "search.*", "theme templates"],
-    bounds={"quick": "template shapes (re-export form x consumer form x duplicate form x kind x nested class; origin __all__ absent, no local definition, no cycle) x 9 privacy rule lists x classic theme (3 600 renders)",
+    bounds={"quick": "template shapes (re-export form x consumer form x duplicate form x kind x nested class; origin __all__ absent, no local definition, no cycle) x 9 privacy rule lists x classic theme; plus, for 2 privacy lists, a variant with a sub-module named like the root package",
             "thorough": "adds origin __all__ (3) and 3 themes"},
     outside="real packages, custom template directories, intersphinx links, links built by JavaScript",
 )
-def h_links(xkind: int, nested: bool, pi: int, origin_all: int, th: int) -> bool:
+def h_links(xkind: int, nested: bool, pi: int, origin_all: int, th: int, samename: bool) -> bool:
     """
     pre: 0 <= xkind <= 1 and 0 <= pi < NPRIV and 0 <= origin_all <= 2 and 0 <= th <= 2
     pre: FULL or (origin_all == 0 and th == 0)
+    pre: FULL or not samename or (pi <= 1 and not nested)
     post: _
     """
     ri, ci, di = PART if PART is not None else [1, 1, 0]
@@ -90,7 +91,7 @@ def h_links(xkind: int, nested: bool, pi: int, origin_all: int, th: int) -> bool
     pi = pick(pi, 0, NPRIV - 1)
     th = pick(th, 0, 2)
     with NoTracing():
-        ok = check_render(kw, pi, THEMES[th])
+        ok = check_render(kw, pi, THEMES[th], pickb(samename))
     return done(ok)
 
 
